@@ -87,6 +87,31 @@ pub fn seeds() -> Vec<Seed> {
         seed("file-upload-initiate", "POST", "/file-upload/initiate?name=a.txt&size=1&lastModified=2", &h, b""),
         seed("get-missing", "GET", "/missing", &h, b""),
     ];
+    // the multipart request again, with its body tokenised part by part
+    let mut m = seed("form-multipart-fine", "POST", "/form-multipart-enctype-post-method", &[("Host", "localhost"), ("Content-Type", "multipart/form-data; boundary=XB")], b"");
+    let body_toks: [(Tok, &[u8]); 17] = [
+        (Tok::Body, b"--XB"),
+        (Tok::Crlf, b"\r\n"),
+        (Tok::HName, b"Content-Disposition"),
+        (Tok::HSep, b": "),
+        (Tok::HValue, b"form-data"),
+        (Tok::HValue, b"; name=\"f\""),
+        (Tok::Crlf, b"\r\n"),
+        (Tok::Blank, b"\r\n"),
+        (Tok::Body, b"value"),
+        (Tok::Crlf, b"\r\n"),
+        (Tok::Body, b"--XB"),
+        (Tok::Crlf, b"\r\n"),
+        (Tok::HName, b"Content-Disposition"),
+        (Tok::HSep, b": "),
+        (Tok::HValue, b"form-data; name=\"g\"; filename=\"g.txt\""),
+        (Tok::Crlf, b"\r\n\r\nsecond\r\n"),
+        (Tok::Body, b"--XB--\r\n"),
+    ];
+    for (t, b) in body_toks.iter() {
+        m.toks.push((*t, b.to_vec()));
+    }
+    v.push(m);
     v
 }
 
@@ -98,6 +123,7 @@ pub fn tree() -> TreeSpec {
     t.file("page.html", b"<html>page</html>");
     t.file("big.bin", &crate::tree::coded(20000, 7));
     t.file("a.txt", b"existing a.txt\n");
+    t.file("four-mib.bin", &vec![b'z'; 4 << 20]);
     t.dir("empty");
     t
 }
@@ -129,6 +155,15 @@ pub fn hostile() -> Vec<Vec<u8>> {
         b"bytes=5-".to_vec(),
         b"Content-Length".to_vec(),
         b"Range".to_vec(),
+        b"attachment".to_vec(),
+        b"inline".to_vec(),
+        b"form-data".to_vec(),
+        b"; name=".to_vec(),
+        b"; filename=\"x\"".to_vec(),
+        b"\"".to_vec(),
+        b";".to_vec(),
+        b"--XB".to_vec(),
+        b"--".to_vec(),
     ];
     v.push(vec![b'A'; 9990]);
     v
@@ -321,6 +356,12 @@ pub fn bytes_from_gen(gen: &Value) -> Vec<u8> {
                 crate::drive::request_bytes("POST", "/form-url-encoded-enctype-post-method", "HTTP/1.1", &[("Host", "localhost"), ("Content-Type", "application/x-www-form-urlencoded")], &body)
             }
         }
+        "many-ranges" => {
+            let k = gen["k"].as_u64().unwrap_or(1) as usize;
+            let spec = gen["spec"].as_str().unwrap_or("0-0");
+            let value = format!("bytes={}", vec![spec; k].join(","));
+            crate::drive::request_bytes("GET", gen["target"].as_str().unwrap_or("/file.txt"), "HTTP/1.1", &[("Range", &value)], b"")
+        }
         "fill" => {
             // a valid request padded with a header value so that it is exactly `len` bytes
             let len = gen["len"].as_u64().unwrap_or(0) as usize;
@@ -343,6 +384,7 @@ pub fn case_from_json(v: &Value) -> Case {
         "header-lines" => "header-lines",
         "form-byte" => "form-byte",
         "fill" => "fill",
+        "many-ranges" => "many-ranges",
         "transport-read" => "transport-read",
         "app" => "app",
         _ => "raw",
@@ -361,6 +403,11 @@ pub fn case_from_json(v: &Value) -> Case {
 /// Enumerate the whole corpus for a tier. `f` returns nothing; ownership/dedup is the
 /// caller's business (through Ctx::begin_case on case.key()).
 pub fn for_each(thorough: bool, f: &mut dyn FnMut(Case)) {
+    for_each_opt(thorough, true, f)
+}
+
+/// `pairs`: include every pair of deviations (C04 does; the monitors that only need breadth do not)
+pub fn for_each_opt(thorough: bool, pairs: bool, f: &mut dyn FnMut(Case)) {
     use crate::drive::Entry;
     let seeds = seeds();
     let hostile = hostile();
@@ -378,8 +425,8 @@ pub fn for_each(thorough: bool, f: &mut dyn FnMut(Case)) {
                 f(Case { family: "mutation1", gen: json!({"kind":"mutation","seed":si,"devs":[d.to_json()]}), bytes: bytes.clone(), entry: e, app: AppKind::Shipped, read: ReadKind::Full, request_size: 10000 });
             }
         }
-        // 2. pairs (thorough): every pair of deviations on two different tokens; production entry point
-        if thorough {
+        // 2. pairs: every pair of deviations on two different tokens; production entry point
+        if pairs {
             let small_h = hostile.len() - 1; // the 9990-byte filler only takes part in single deviations
             let singles2 = single_devs(s, small_h);
             for (i, a) in singles2.iter().enumerate() {
@@ -445,6 +492,24 @@ pub fn for_each(thorough: bool, f: &mut dyn FnMut(Case)) {
             let gen = json!({"kind":"form-byte","endpoint":ep,"byte":b});
             for e in entries {
                 f(Case { family: "form-byte", gen: gen.clone(), bytes: bytes_from_gen(&gen), entry: e, app: AppKind::Shipped, read: ReadKind::Full, request_size: 10000 });
+            }
+        }
+    }
+    // 6b. many ranges in one request (sums and products over the part list)
+    for target in ["/file.txt", "/big.bin", "/four-mib.bin"] {
+        for spec in ["0-0", "0-", "-1"] {
+            if target == "/four-mib.bin" && spec == "0-" {
+                continue; // 2400 copies of a 4 MiB file: a memory question, not this property's
+            }
+            for k in [1usize, 2, 3, 16, 255, 256, 257, 511, 512, 513, 1024, 2047, 2048, 2400] {
+                let gen = json!({"kind":"many-ranges","target":target,"spec":spec,"k":k});
+                let bytes = bytes_from_gen(&gen);
+                if bytes.len() > 9990 {
+                    continue;
+                }
+                for e in entries {
+                    f(Case { family: "many-ranges", gen: gen.clone(), bytes: bytes.clone(), entry: e, app: AppKind::Shipped, read: ReadKind::Full, request_size: 10000 });
+                }
             }
         }
     }
